@@ -48,6 +48,21 @@ Theorem C20_account_update_atomic :
     let s_new := apply s (acct_update fold fnew data) in
     loads key_of live s' /\ (same_accounts key_of live s' s \/ same_accounts key_of live s' s_new).
 Proof. exact acct_update_crash. Qed.
+(* ... and the one crash state of a login-changing update in which the record is not yet in the file of its login is
+   repaired by the loader: what it does with the old file (rename it to the file of the login inside, when that is
+   free) yields exactly the state of the completed update, does nothing at every other crash point, and always
+   leaves a directory in which every account lives in the file of its login - so that later updates and deletions,
+   which address the file by the login, act on the account's only file *)
+Theorem C20_interrupted_rename_is_finished :
+  forall (key_of : bytes -> option bytes) (live : bytes -> bool) (name_of : bytes -> bytes)
+         (s : fs) fold fnew old data knew k,
+    live fold = true -> live fnew = true -> live (tmp_of fold) = false ->
+    s !! fold = Some old -> fold <> fnew -> s !! fnew = None ->
+    key_of data = Some knew -> fnew = name_of knew -> key_of old <> None -> well_named key_of live name_of s ->
+    let U := acct_update fold fnew data in
+    recover1 key_of name_of (crash_at k s U) fold = (if Nat.eqb k 3 then apply s U else crash_at k s U) /\
+    well_named key_of live name_of (recover1 key_of name_of (crash_at k s U) fold).
+Proof. exact acct_update_recovered. Qed.
 Theorem C20_account_delete_atomic :
   forall (s : fs) f k, crash_at k s (acct_delete f) = s \/ crash_at k s (acct_delete f) = apply s (acct_delete f).
 Proof. exact acct_delete_crash. Qed.
@@ -101,6 +116,9 @@ Proof.
   destruct (bool_decide (rho "oldPath"%string = rho "newPath"%string)); reflexivity.
 Qed.
 
+Theorem C20_loader_only_finishes_moves : calls_of "NewYAMLAccountManager" persist_calls = loader_calls.
+Proof. vm_compute. reflexivity. Qed.
+
 Example C20_nonvacuous :
   let s : fs := {[ [1] := [7] ]} in
   crash_at 2 s (atomic_write [1] [8]) !! [1] = Some [7] /\ crash_at 3 s (atomic_write [1] [8]) !! [1] = Some [8].
@@ -118,3 +136,5 @@ Print Assumptions C20_in_place_write_refuted.
 Print Assumptions C20_only_known_functions_touch_the_file_system.
 Print Assumptions C20_writeFileAtomic_is_atomic_write.
 Print Assumptions C20_sources_issue_the_modelled_scripts.
+Print Assumptions C20_interrupted_rename_is_finished.
+Print Assumptions C20_loader_only_finishes_moves.
